@@ -69,6 +69,13 @@ SPEC = Spec(
          "deadline (ctx.Deadline(), and Canceled/DeadlineExceeded for pushers that wait for their context). Corpus first (DESIGN probe; zero-delay + shutdown / "
          "cancel during the attempt; shutdown+cancel both pending; throttle/partial/permanent; deadline). thorough adds every script of "
          "length <=3 over 6 outcome kinds x 16 event placements x 2 configs. non-trivial = at least two attempts; distinct = sha1 of op lines. "
+         "Round 7: throttle delays in the EXTREME range (MaxInt64 ns, MaxInt64-1, > MaxInt64/2, exactly the remaining budget and +-1 ns, the "
+         "budget, 0, negative; only with a finite elapsed-time budget) - the model is exact on Nat; a retry the sender schedules after an "
+         "absurd interval is read off its log record and the case cut short by shutting the exporter down (the virtual clock cannot run "
+         "292 years). Configuration-level dimension (1/5 of the cases + 3 corpus cases): the exporter built with "
+         "sending_queue{wait_for_result: true, 1 consumer} and started; the producer's context (deadline / cancellation) is the request's "
+         "context down to the retry sender; the caller is answered with its context's error when that context ends (model: ret at that "
+         "instant, reason ctxdone), the sender's attempts are recorded for 30 more virtual minutes and judged by the clause oracle. "
          "multi: 2-4 requests with their own scripts CONCURRENTLY through one exporter (one retrySender, one stopCh), started at "
          "different offsets, some after Shutdown; rf=0; each request's observed trace is compared with the model run on its own script on "
          "its own clock with the shutdown instant shifted to that clock (independence of requests); corpus: three requests in back-off "
@@ -103,6 +110,9 @@ SPEC = Spec(
         "Attempt.sd, driven by the harness): only 'reason shutdown => classified' holds unconditionally (C05_shutdown_reason_classified); "
         "C05_sdFlag_iff carries the hypothesis that no backend error is shutdown-classified",
         "the multi harness (several requests through one sender) runs with rf = 0 only",
+        "wait_for_result queue cases: no exporter shutdown in those cases; cases in which the sender finishes on exactly the instant the "
+        "producer's context ends are not compared (stat queue_tie_not_compared); when the caller was answered by its context the sender's "
+        "own verdict is not observed (attempt instants and payloads are); the legacy batcher-without-queue setup is not driven",
         "LawAlong: the library law is assumed for every draw the script supplies (also for attempts that are never reached)",
         "the otlp-grpc harness runs with a go.mod COPY whose indirect dependency klauspost/compress is pointed at the cached v1.18.0 "
         "(v1.17.11 is not in the offline module cache); /repo is not touched",
